@@ -12,6 +12,37 @@ let read_sched (t : toks) : sched =
 
 let show_wres = function WOk -> "ok" | WErrHard -> "hard" | WErrZero -> "zero"
 
+let opt f = function None -> "-" | Some x -> f x
+let b01 b = if b then "1" else "0"
+let f64_hex f = let h = hex_of_n (bits_of_f64 f) in String.make (16 - String.length h) '0' ^ h
+
+let show_acc (v : value) : string =
+  String.concat " " [
+    "k=" ^ String.concat "" (List.map b01 (kind_predicates v));
+    "str=" ^ opt hex_of_bytes (as_str v);
+    "sym=" ^ opt hex_of_bytes (as_symbol v);
+    "kw=" ^ opt hex_of_bytes (as_keyword v);
+    "name=" ^ opt hex_of_bytes (as_name v);
+    "bytes=" ^ opt hex_of_bytes (as_bytes v);
+    "bool=" ^ opt b01 (as_bool v);
+    "char=" ^ opt hex_of_n (as_char v);
+    "i64=" ^ opt dec_of_z (as_i64 v);
+    "u64=" ^ opt dec_of_n (as_u64 v);
+    "f64=" ^ opt f64_hex (as_f64 v);
+    "is=" ^ b01 (is_i64 v) ^ b01 (is_u64 v) ^ b01 (is_f64 v) ]
+
+let read_prim (t : toks) : prim =
+  let s = next t in
+  let i = String.index s ':' in
+  let tag = String.sub s 0 i and arg = String.sub s (i + 1) (String.length s - i - 1) in
+  if tag = "str" then PStr (bytes_of_hex arg) else
+  match tag.[0] with
+  | 's' -> PSigned (n_of_dec (String.sub tag 1 (String.length tag - 1)), z_of_dec arg)
+  | 'u' -> PUnsigned (n_of_dec (String.sub tag 1 (String.length tag - 1)), n_of_dec arg)
+  | 'f' -> if tag = "f32" then PF32 (f32_of_bits (n_of_hex arg)) else PF64 (f64_of_bits (n_of_hex arg))
+  | 'b' -> PBool (arg = "1")
+  | _ -> PStr (bytes_of_hex arg)
+
 let run_case (line : string) : string =
   let t = toks_of_line line in
   match next t with
@@ -33,6 +64,18 @@ let run_case (line : string) : string =
       let v = read_value t in
       let (r, d) = run_sink s [] (trace0 ryu v) in
       show_wres r ^ " " ^ hex_of_bytes d
+  | "acc" -> show_acc (read_value t)
+  | "from" ->
+      let p = read_prim t in
+      let v = value_from_prim p in
+      string_of_value v ^ " " ^ show_acc v
+  | "cmp" ->
+      let p = read_prim t in
+      let v = read_value t in
+      b01 (value_eq_prim v p) ^ b01 (prim_eq_value p v)
+  | "fromf64" ->
+      let f = f64_of_bits (n_of_hex (next t)) in
+      (match num_from_f64 f with None -> "-" | Some n -> string_of_value (Number n))
   | op -> "?unknown-op " ^ op
 
 let () =
